@@ -27,6 +27,7 @@ func drawCfg(t *tape.Tape, p *rules.Pos) searchCfg {
 	if t.Chance(1, 3) {
 		c.selective = t.Range(2, 4)
 		c.selSeed = uint64(t.Choose(1<<16)) + 1
+		c.selMayDropAll = t.Chance(1, 3)
 	}
 	c.quiesce = t.Chance(1, 3)
 	// deepest depth whose estimated tree stays inside the reference budget
@@ -189,7 +190,10 @@ func checkC03(res *core.RunResult, gs *gameSetup, cfg searchCfg, step int) bool 
 		}
 		p = p.Make(mm)
 	}
-	if !rootDrawn && len(legal) > 0 {
+	if ms.NoneExplored {
+		res.Probe("node-with-no-explored-move")
+	}
+	if !rootDrawn && len(legal) > 0 && len(opt) > 0 {
 		if len(pv) == 0 {
 			res.Violate("C03", "pv-empty", step, "Search(%s) on %q returned %v with an empty PV though legal moves exist", cfg, gs.g.FEN(), score)
 			return false
